@@ -679,9 +679,15 @@ Fixpoint cl_send_pending (fuel : nat) (c : cconn) (id : N) : cconn * cl_spres :=
           let '(c1, stuck) := cl_delete_pending 1 [] c id in
           if stuck then (c1, CSPStuck)
           else
-            (* the stream is reset and the request ended: nothing else is going to end it *)
-            let c2 := cl_take_req_count (cl_cancel_stream c1 id c_InternalError) id in
-            (cl_ctx_upd c2 (pb_tag pb) (fun x => cl_ctx_resolve (ctu_finished x true) CEBody), CSPOk)
+            (* whoever takes the request off the table ends it; the write loop writes the
+               RST_STREAM itself (writeReset): queued on c.out it would wait for this very loop *)
+            match cl_req_find (cc_reqQueued c1) id with
+            | None => (c1, CSPOk)
+            | Some _ =>
+              let c2 := cl_take_req_count c1 id in
+              let c3 := cl_ctx_upd c2 (pb_tag pb) (fun x => cl_ctx_resolve (ctu_finished x true) CEBody) in
+              if cl_can_write c3 then (cl_note c3 (CORst id c_InternalError), CSPOk) else (c3, CSPWriteErr)
+            end
         | Some pb' => cl_send_pending fuel' (ccu_pending c (cl_pend_put (cc_pending c) pb')) id
         end
       else
